@@ -21,6 +21,7 @@ pub mod c21;
 pub mod c22;
 pub mod c23;
 pub mod c24;
+pub mod scale_mix;
 pub mod surface;
 
 pub fn all() -> Vec<PropertyDef> {
